@@ -195,6 +195,10 @@ class C12(Prop):
                 return (f"a join cancelled from outside never ends: it waits for members {fin['live_not_requested']} "
                         'that were never sent a cancellation (clean-up skipped for them)')
             return None
+        if obs.get('refused_during_join'):
+            return ('while a join cancelled from outside was still cancelling and awaiting its members, a member\'s follow-up task was '
+                    f'refused ("task group terminated") and left outside the group (refused: {obs["refused_during_join"]}): the clean-up '
+                    'a join promises covers members added during it')
         cancelled_at = next((i for i, (l, sn) in enumerate(obs['trace']) if l[0] == 'cancelJ'), None)
         if cancelled_at is not None and cancelled_at < je['at'] and not je['joiner_cancelled']:
             return ('a task cancelled from outside while joining a task group did not end cancelled '
